@@ -36,7 +36,7 @@ WEIGHTS = {"ctrl": 0.8, "add_node": 6, "add_edge": 6, "paint": 6, "swap": 2.5, "
 
 def plan(tier, seed):
     # + the repository's own test-suite, unedited, as one more workload under the same monitor
-    return common.session_plan(PROP, tier, seed, quick=7200, thorough=80000) + [common.pytest_spec()]
+    return [common.pytest_spec()] + common.session_plan(PROP, tier, seed, quick=7200, thorough=80000)
 
 
 def run_shard(spec):
